@@ -498,6 +498,45 @@ pub fn boundary_packets() -> Vec<Vec<u8>> {
             out.push(p);
         }
     }
+    // 16-bit length fields at the ends of their range: EDNS option lengths (first and second option, inside a
+    // correctly sized OPT record, an oversized one and one that runs to the end of a 64 KiB packet), RDLENGTH of
+    // opaque, name-bearing and OPT records, with and without the bytes actually being there
+    for v in [0x7fffu16, 0x8000, 0xfff0, 0xfffb, 0xfffc, 0xfffd, 0xfffe, 0xffff] {
+        let hi = (v >> 8) as u8;
+        let lo = (v & 255) as u8;
+        for lead in [vec![], vec![0u8, 10, 0, 2, 7, 7]] {
+            let mut opts = lead.clone();
+            opts.extend(&[0, 12, hi, lo]);
+            for rdlen_kind in 0..3 {
+                let mut p = header(17, 0x0000, 1, 0, 0, 1);
+                question(&mut p, &[1, b'q', 0], 1);
+                let body: Vec<u8> = match rdlen_kind {
+                    0 => opts.clone(),                                              // the option overruns the OPT data
+                    1 => { let mut b = opts.clone(); b.extend(vec![0u8; 40]); b }   // some bytes follow, not enough
+                    _ => { let mut b = opts.clone(); b.extend(vec![0u8; (v as usize).min(65535 - 40 - opts.len())]); b } // as many as fit in 64 KiB
+                };
+                p.extend(&[0, 0, 41, 4, 208, 0, 0, 0, 0]);
+                let rdl = if rdlen_kind == 0 { opts.len() } else { body.len().min(65535) };
+                p.extend(&[(rdl >> 8) as u8, (rdl & 255) as u8]);
+                p.extend(&body);
+                out.push(p);
+            }
+        }
+        for ty in [16u16, 2, 6, 41, 999] {
+            for present in [false, true] {
+                let mut p = header(18, 0x8180, 1, if ty == 41 { 0 } else { 1 }, 0, if ty == 41 { 1 } else { 0 });
+                question(&mut p, &[1, b'q', 0], 1);
+                p.extend(&[0]);
+                p.extend(&[(ty >> 8) as u8, (ty & 255) as u8, 0, 1, 0, 0, 0, 0, hi, lo]);
+                if present {
+                    p.extend(vec![1u8; (v as usize).min(65535 - p.len())]);
+                } else {
+                    p.extend(&[1, b'x', 0, 0, 0]);
+                }
+                out.push(p);
+            }
+        }
+    }
     for w in wide_packets(false) {
         out.push(w);
     }
